@@ -82,6 +82,36 @@ def r62(facts, res):
     R = 'R6.2'
     b = facts.one(R, 'simplify_repairs', crate='lrpar', name='simplify_repairs')
     clos = [c for c in facts.closures_of(b) if c.lty(0) == 'core::cmp::Ordering']
+    if not clos:
+        # the same ranking as a sort KEY: sort*_by_key(|x| (contains an avoided insertion?, x.len())) - ascending on that pair puts
+        # sequences without avoided insertions first (false < true) and orders the rest by length
+        for bb, t in b.calls():
+            if not (cname(t) or '').endswith('by_key') or len(t['args']) < 2:
+                continue
+            cl = op_local(t['args'][1])
+            kb = None
+            for _bb, kind, rv in b.defs().get(cl, ()):
+                if kind == 'stmt' and 'agg' in rv and isinstance(rv['agg'], dict) and 'closure' in rv['agg']:
+                    kb = facts.bodies.get(rv['agg']['closure'])
+            if kb is None:
+                continue
+            ps = [p for p in Walker(kb, facts, max_paths=16).run() if p.end[0] == 'return']
+            good = bool(ps)
+            for p in ps:
+                r = p.end[1]
+                if not (r[0] == 'tuple' and len(r[1]) == 2):
+                    good = False
+                    continue
+                first, second = r[1]
+                avoid_first = (first[0] in ('call', 'icall') and term_has(first, lambda x: x == ('param', 2)) and not has_call(first, 'len')) or \
+                    (is_const(first) and any(term_has(cd, lambda x: x == ('param', 2)) and (cd[0] in ('call', 'icall')) and v == first[1] for cd, v in p.conds))
+                if not (avoid_first and has_call(second, 'len') and term_has(second, lambda x: x == ('param', 2))):
+                    good = False
+            if good:
+                res.ok(R, 'comparator', loc_of(kb), 'sorted ascending by the key (contains an avoided insertion, length): sequences without avoided insertions first, then shorter first')
+            else:
+                res.bad(R, 'comparator', loc_of(kb), 'the sort key is not (contains an avoided insertion, length)')
+            return
     if len(clos) != 1:
         res.lost(R, 'ranking comparator closure not found (%d candidates)' % len(clos))
         return
@@ -353,6 +383,32 @@ def r64(facts, res):
         res.bad(R, 'neighbour-table', loc_of(c), '; '.join(sorted(set(bad))) or 'could not read the neighbour table')
 
 
+def cost_assert_loops(b):
+    """headers of loops of `b` that call the token-cost function and compare something with 0 on the way to a diverging call"""
+    out = []
+    for h, body in b.loops().items():
+        cost_calls = [(bb, t) for bb, t in b.calls(blocks=body) if cname(t) in ('call', 'call_mut') or callee_of(t) is None]
+        gts = []
+        for bb in body:
+            for st in b.blocks[bb]['stmts']:
+                if st['k'] == 'assign' and 'bin' in st['rv'] and st['rv']['bin'] in ('Gt', 'Lt', 'Ne', 'Eq', 'Ge', 'Le'):
+                    c = st['rv']['b'].get('const') or st['rv']['a'].get('const')
+                    if c is not None and c.get('int') == 0:
+                        gts.append(st['rv']['bin'])
+        if cost_calls and gts and gts[0] in ('Gt', 'Lt', 'Ne'):
+            out.append(h)
+    return out
+
+
+def reaches_lr(facts, path, depth=3):
+    b = facts.bodies.get(path)
+    if b is None or depth == 0:
+        return False
+    if b.name == 'lr' and (b.impl_of or '').startswith('lrpar::parser::Parser<'):
+        return True
+    return any(reaches_lr(facts, cpath(t) or '', depth - 1) for _bb, t in b.calls() if (cpath(t) or '').startswith('lrpar::parser::'))
+
+
 def r65(facts, res):
     R = 'R6.5'
     n = 0
@@ -360,22 +416,23 @@ def r65(facts, res):
         bs = [x for x in facts.lib_bodies(['lrpar']) if x.name == name and (x.impl_of or '').startswith('lrpar::parser::Parser<')]
         for b in bs:
             n += 1
-            lrs = b.calls_named('lr')
-            loops = b.loops()
+            # where parsing starts: the call of lr(), or of a local helper that gets there
+            lrs = [(bb, t) for bb, t in b.calls() if reaches_lr(facts, cpath(t) or '')]
+            # the assertion: a loop in this function, or in a local helper called (unconditionally) before parsing starts
             okl = None
-            for h, body in loops.items():
-                cost_calls = [(bb, t) for bb, t in b.calls(blocks=body) if cname(t) in ('call', 'call_mut') or callee_of(t) is None]
-                divs = [bb for bb in body if any(b.term(x)['k'] == 'call' and b.term(x)['ret'] is None for x in b.succs(bb))]
-                gts = []
-                for bb in body:
-                    for st in b.blocks[bb]['stmts']:
-                        if st['k'] == 'assign' and 'bin' in st['rv'] and st['rv']['bin'] in ('Gt', 'Lt', 'Ne', 'Eq', 'Ge', 'Le'):
-                            c = st['rv']['b'].get('const') or st['rv']['a'].get('const')
-                            if c is not None and c.get('int') == 0:
-                                gts.append(st['rv']['bin'])
-                if cost_calls and gts and gts[0] in ('Gt', 'Lt', 'Ne'):
+            for h in cost_assert_loops(b):
+                if lrs and b.dominates(h, lrs[0][0]):
                     okl = h
-            if okl is not None and lrs and b.dominates(okl, lrs[0][0]):
+            if okl is None and lrs:
+                for bb, t in b.calls():
+                    hb = facts.bodies.get(cpath(t) or '')
+                    if hb is not None and hb.crate == 'lrpar' and hb.kind in ('fn', 'assoc_fn') and b.dominates(bb, lrs[0][0]) and bb != lrs[0][0]:
+                        hl = cost_assert_loops(hb)
+                        # the helper's loop runs on every call of it: its header dominates every return
+                        rets = [x for x in hb.reachable() if hb.term(x)['k'] == 'return']
+                        if hl and rets and all(any(hb.dominates(h2, r) for h2 in hl) for r in rets):
+                            okl = bb
+            if okl is not None:
                 res.ok(R, 'costs-positive:' + name, loc_of(b, okl), 'every token cost is asserted > 0 before lr() starts')
             else:
                 res.bad(R, 'costs-positive:' + name, loc_of(b), 'token costs are not asserted > 0 before parsing: a zero cost makes insert/delete free and the search non-minimal')
